@@ -1128,9 +1128,11 @@ func isWildcardASN(lhs string) bool {
 	return lhs == `[0-9]*` || lhs == `[0-9]+` || lhs == `\d*` || lhs == `\d+`
 }
 
-func isWildcardLocal(s string) bool {
-	s = strings.TrimSuffix(s, "$")
-	return strings.HasSuffix(s, `:\d+`) || strings.HasSuffix(s, `:[0-9]+`) || strings.HasSuffix(s, `:.*`)
+// isWildcardLocal reports whether rest, the whole of the pattern after the
+// "^<ASN>:" prefix, accepts every local-admin value.
+func isWildcardLocal(rest string) bool {
+	rest = strings.TrimSuffix(rest, "$")
+	return rest == `\d+` || rest == `[0-9]+` || rest == `.*`
 }
 
 func parseLocalAdminSet(rhs string) (*localAdminBitmap, bool) {
@@ -1207,17 +1209,23 @@ func hasTopLevelAlternation(s string) bool {
 	return re.Op == syntax.OpAlternate
 }
 
-func extractLiteralASN(s string) (uint16, bool) {
+// extractLiteralASN recognises patterns of the form ^<ASN>:<rest> that can only
+// match communities of that AS, and returns the AS and <rest>.
+func extractLiteralASN(s string) (uint16, string, bool) {
 	if len(s) == 0 || s[0] != '^' || hasTopLevelAlternation(s) {
-		return 0, false
+		return 0, "", false
 	}
 	start := 1
 	idx := strings.IndexByte(s[start:], ':')
 	if idx <= 0 {
-		return 0, false
+		return 0, "", false
 	}
-	asn, err := strconv.ParseUint(s[start:start+idx], 10, 16)
-	return uint16(asn), err == nil && isCanonicalDecimal(s[start:start+idx])
+	lit, rest := s[start:start+idx], s[start+idx+1:]
+	asn, err := strconv.ParseUint(lit, 10, 16)
+	if err != nil || !isCanonicalDecimal(lit) {
+		return 0, "", false
+	}
+	return uint16(asn), rest, true
 }
 
 func compileCommunityMatcher(re *regexp.Regexp, listIndex int) communityMatcher {
@@ -1231,8 +1239,8 @@ func compileCommunityMatcher(re *regexp.Regexp, listIndex int) communityMatcher 
 			}
 		}
 	}
-	if asn, ok := extractLiteralASN(s); ok {
-		if isWildcardLocal(s) {
+	if asn, rest, ok := extractLiteralASN(s); ok {
+		if isWildcardLocal(rest) {
 			return communityMatcher{
 				mode:      communityMatchFixedASWildcard,
 				listIndex: communityMatcherNoListIdx,
@@ -1577,8 +1585,8 @@ func compileExtCommunityMatcher(subtype bgp.ExtendedCommunityAttrSubType, re *re
 			return extCommunityMatcher{subtype: subtype, mode: extCommMatchExact, exactAS: asn, exactLocalAdmin: la}
 		}
 	}
-	if asn, ok := extractLiteralASN(s); ok {
-		if isWildcardLocal(s) {
+	if asn, rest, ok := extractLiteralASN(s); ok {
+		if isWildcardLocal(rest) {
 			return extCommunityMatcher{subtype: subtype, mode: extCommMatchASOnly, exactAS: asn}
 		}
 		if anchored {
